@@ -12,10 +12,11 @@ declare -A OWNERS=(
   [C01c]="C01" [C03c]="C03" [C07c]="C07" [C08c]="C08" [C13c]="C13" [C15c]="C14" [C17c]="C17" [C19c]="C19"
   [C01d]="C01" [C02d]="C02" [C03d]="C03" [C05c]="C05" [C07d]="C07" [C09d]="C09" [C10d]="C10" [C11b]="C11" [C16b]="C16" [C18c]="C18"
   [C04c]="C04" [C06c]="C06" [C08d]="C08" [C12c]="C12" [C13d]="C13" [C14c]="C14" [C15d]="C15" [C17d]="C17" [C19d]="C19" [C20c]="C20"
+  [C01e]="C01" [C02e]="C02" [C04d]="C04" [C05d]="C08 C05" [C06d]="C06" [C08e]="C08" [C11c]="C11 C08" [C15e]="C15" [C18d]="C18" [C20d]="C20"
   [C02b]="C02" [C04b]="C04" [C05b]="C05" [C06b]="C06" [C09b]="C09" [C10b]="C10" [C12b]="C12" [C14b]="C14" [C18b]="C18" [C20b]="C20"
 )
 ids=("$@")
-[ ${#ids[@]} -eq 0 ] && ids=($(ls seeded | grep '^C[0-9][0-9][bcd]\?$'))
+[ ${#ids[@]} -eq 0 ] && ids=($(ls seeded | grep '^C[0-9][0-9][bcde]\?$'))
 head=$(git -C /repo log --format=%h -1)
 for id in "${ids[@]}"; do
   wt=/var/tmp/seedwt/$id
